@@ -19,6 +19,11 @@ for p in confl:
                     f.write('"""Configuration of the %s check (see DESIGN.md section 6)."""\nPROP = ' % k)
                     f.write(pprint.pformat(v, width=110, sort_dicts=False)); f.write("\n")
         open(full, "w").write(show(2, p))
+    elif p == "tools/claims.json":
+        a = json.loads(show(2, p)); b = json.loads(show(3, p))
+        for k, v in b.items():
+            a.setdefault(k, v)
+        json.dump(a, open(full, "w"), indent=1)
     elif p == "known_findings.json":
         subprocess.run([os.path.join(R, "tools", "merge_shared.py"), p], cwd=R)
     elif p == "coq/Extract.v":
